@@ -686,6 +686,59 @@ def op_class(op, archs, i):
     return "%s:%s" % (archs[i], kind)
 
 
+def op_in_theorem(arch, tok, nlabels=10):
+    """is this operand inside the `OpOK`/`OpOKA` kinds of x86_line_parse_back / a64_line_parse_back? (mirrors the theorems' WF predicates)"""
+    p = tok.split(".")
+    a64 = arch.startswith("a64")
+    if p[0] == "r":
+        t = int(p[1])
+        virt = p[2].startswith("v")
+        if len(p) == 3:
+            return virt or valid_reg("a64" if a64 else "x64", t, int(p[2]))
+        et, ei = int(p[3]), p[4]
+        if et == 0:
+            return False
+        return a64 and not virt and int(p[2]) < 32 and ((t == 10 and 1 <= et <= 4) or (t == 11 and 1 <= et <= 6))
+    if p[0] == "i":
+        return len(p) == 2 or (a64 and int(p[2]) < 14) or (not a64 and int(p[2]) == 0)
+    if p[0] == "l":
+        return int(p[1]) < nlabels
+    def regok(s_):
+        if s_ == "-":
+            return True
+        if s_[0] == "L":
+            return int(s_[1:]) < nlabels
+        t, i = s_.split("/")
+        return i.startswith("v") or valid_reg("a64" if a64 else "x64", int(t), int(i))
+    if p[0] == "m" and not a64:
+        size, seg, at, base, index, shift, off, bc, home = p[1:]
+        return int(size) in (0, 1, 2, 4, 6, 8, 10, 16, 32, 64) and int(seg) < 7 and int(at) < 3 and int(bc) < 7 and regok(base) and regok(index)
+    if p[0] == "am" and a64:
+        base, index, sop, shift, off, mode, home = p[1:]
+        if base == "-" or not regok(base) or not regok(index):
+            return False
+        sop, shift, mode, off = int(sop), int(shift), int(mode), int(off)
+        if index == "-":
+            return shift == 0 and sop == 0 and mode <= 2
+        return off == 0 and ((mode == 0 and sop < 14) or (mode == 2 and sop == 0 and shift == 0))
+    return False
+
+
+def line_in_theorem(arch, flags, ops_tokens, impl_text):
+    a64 = arch.startswith("a64")
+    if flags & 0x10 and ANNOT.search(impl_text or ""):
+        return False            # kExplainImms annotation: not part of the modelled text
+    if not all(op_in_theorem(arch, t) for t in ops_tokens):
+        return False
+    if a64:
+        for t in ops_tokens[:-1]:
+            if t.startswith("am."):
+                q = t.split(".")
+                if q[2] == "-" and int(q[5]) == 0 and int(q[6]) == 0:
+                    return False        # a plain `[b]` that is not the last operand
+    return True
+
+
 def generate():
     return gen_formattabs.generate()
 
@@ -831,6 +884,20 @@ def run(res):
             if "L0.inner" in r or "L7.loop" in r or "Data_1.loop" in r:
                 tgt["local_label_under_unnamed_parent_texts"] += "L0.inner" in r
     res.coverage["targeted_cases"] = tgt
+    # fraction of the lines the real Assembler emitted (the sweep) that lie inside the WF predicate of the line theorems
+    frac = {}
+    for i, (o, r) in enumerate(zip(ops, impl)):
+        if o.startswith("emit ") and r.startswith("T "):
+            fam = "a64" if archs[i].startswith("a64") else "x86"
+            w = o.split()
+            inside = line_in_theorem(archs[i], fl[i], w[5:], r)
+            a_, b_ = frac.get(fam, (0, 0))
+            frac[fam] = (a_ + (1 if inside else 0), b_ + 1)
+    res.coverage["line_theorem_wf_fraction_of_emitted_lines"] = {
+        k: {"inside": a_, "emitted": b_, "fraction": round(a_ / b_, 4) if b_ else None} for k, (a_, b_) in frac.items()}
+    res.coverage["line_theorem_wf_note"] = ("x86_line_parse_back / a64_line_parse_back quantify over all lines satisfying WFLine / "
+        "(OpOKA, A64OpsOK); a line is outside only if it carries a kExplainImms annotation (text not modelled) or an operand "
+        "outside the proved kinds; the classifier op_in_theorem mirrors the WF predicates")
     if not all(tgt.values()):
         broken.append("generator no longer reaches a targeted class: %s" % tgt)
     res.coverage["machine_code_column_on_real_byte_stream"] = (
